@@ -31,11 +31,11 @@ TIERS = {'quick': {'units': 150, 'wall_cap': 75.0, 'unit_timeout': 240.0},
          'thorough': {'units': 3000, 'wall_cap': 1100.0, 'unit_timeout': 600.0}}
 
 MAX_PLANS = {'quick': 700, 'thorough': 2500}
-KINDS = ['conelp', 'conelp', 'coneqp', 'coneqp', 'lp', 'qp', 'socp', 'sdp', 'cpl', 'cpl', 'cpl', 'cp', 'cp']
+KINDS = ['conelp', 'conelp', 'coneqp', 'coneqp', 'lp', 'qp', 'socp', 'sdp', 'cpl', 'cpl', 'cpl', 'cp', 'cp', 'gp']
 NAMED = {'conelp': ['ldl', 'ldl2', 'qr', 'chol', 'chol2'], 'lp': ['ldl', 'ldl2', 'qr', 'chol', 'chol2'],
          'socp': ['ldl', 'ldl2', 'qr', 'chol'], 'sdp': ['ldl', 'ldl2', 'qr', 'chol'],
          'coneqp': ['ldl', 'ldl2', 'chol', 'chol2'], 'qp': ['ldl', 'ldl2', 'chol', 'chol2'],
-         'cpl': ['ldl', 'ldl2', 'chol', 'chol2'], 'cp': ['ldl', 'chol', 'chol2']}
+         'cpl': ['ldl', 'ldl2', 'chol', 'chol2'], 'cp': ['ldl', 'chol', 'chol2'], 'gp': ['ldl', 'chol', 'chol2']}
 
 
 def warmup():
@@ -50,6 +50,8 @@ def gen_instance(rng):
     kind = rng.choice(KINDS)
     if kind in ('cpl', 'cp'):
         inst = gen.gen_cpl(rng, kind)
+    elif kind == 'gp':
+        inst = gen.gen_gp(rng)
     elif kind in ('coneqp', 'qp') and rng.random() < 0.15:
         inst = gen.gen_eqqp(rng, kind)
     else:
@@ -70,12 +72,12 @@ def gen_instance(rng):
     # KKT path
     dims = inst['dims']
     names = [k for k in NAMED[kind] if not (k == 'chol2' and (dims['q'] or dims['s']))]
-    if kind not in ('cpl', 'cp') and dims['l'] < inst['n']:
+    if kind not in ('cpl', 'cp', 'gp') and dims['l'] < inst['n']:
         names = [k for k in names if k != 'chol2'] or names      # keep the F10 class out (DESIGN 9)
     choice = rng.choice(names + ['default'])
     if choice == 'default':
         dflt = 'chol2' if not (dims['q'] or dims['s']) else ('qr' if kind in ('conelp', 'socp', 'sdp') else 'chol')
-        if dflt == 'chol2' and kind not in ('cpl', 'cp') and dims['l'] < inst['n']:
+        if dflt == 'chol2' and kind not in ('cpl', 'cp', 'gp') and dims['l'] < inst['n']:
             choice = rng.choice(names)
     inst['kkt'] = choice
     if (choice == 'chol2' or (choice == 'default' and not (dims['q'] or dims['s']))) and rng.random() < 0.5:
@@ -83,7 +85,7 @@ def gen_instance(rng):
         for mat in ('G', 'A', 'P'):
             if mat in inst and not inst.get('no_G') or (mat != 'G' and mat in inst):
                 inst[mat] = dict(inst[mat], sparse=True)
-    inst['user_kkt'] = bool(rng.random() < 0.25) and choice != 'default'
+    inst['user_kkt'] = bool(rng.random() < 0.25) and choice != 'default' and kind != 'gp'
     opts = {'show_progress': False}
     r = rng.choice([None, None, 0, 1, 2])
     if r is not None:
@@ -180,6 +182,9 @@ def simulate(inst, plan, log=None):
     refuse = make_refuse(plan.get('domain'))
     F = gen.ConvexF(inst, refuse) if kind in ('cpl', 'cp') else None
     m = gen.materialise(inst, F)
+    if kind == 'gp':
+        m['F'] = gen.M(inst['F'])
+        m['g'] = gen.V(inst['g'])
     out = Outcome()
     out.raw_cpl = None
     orig = {name: getattr(misc, name) for name in faults.KKT_NAMES}
@@ -215,7 +220,7 @@ def simulate(inst, plan, log=None):
         r = real_cpl(*a, **kw)
         out.raw_cpl = dict(r)
         return r
-    if kind == 'cp':
+    if kind in ('cp', 'gp'):
         cvxprog.cpl = cpl_capture
     buf = io.StringIO()
     out.exc = None
@@ -223,7 +228,10 @@ def simulate(inst, plan, log=None):
     try:
         with contextlib.redirect_stdout(buf):
             try:
-                out.res = gen.call_solver(inst, m, kktsolver=kktsolver, options=dict(inst['options']))
+                if kind == 'gp':
+                    out.res = gen.solve_gp(inst, m, options=dict(inst['options']), kktsolver=kktsolver)
+                else:
+                    out.res = gen.call_solver(inst, m, kktsolver=kktsolver, options=dict(inst['options']))
             except BaseException as e:   # noqa — classified by the oracle
                 out.exc = e
     finally:
@@ -248,7 +256,7 @@ def summarise(inst, out):
     elif isinstance(res, dict):
         b['status'] = res.get('status')
         b['pcost'] = res.get('primal objective')
-        if inst['kind'] in ('cpl', 'cp') and res.get('x') is not None:
+        if inst['kind'] in ('cpl', 'cp', 'gp') and res.get('x') is not None:
             b['xfinal'] = list(res['x'])
     if out.F is not None:
         b['ftrace'] = [t for t in out.F.trace if not t[2]][:400]
@@ -340,7 +348,7 @@ def judge(inst, plan, out, base):
     if first is not None:
         idx = seam.calls.index(first)
         later_calls = len(seam.calls) - idx - 1
-    facts['restored'] = kind in ('cpl', 'cp') and later_calls > 0
+    facts['restored'] = kind in ('cpl', 'cp', 'gp') and later_calls > 0
     if status != 'unknown':
         if not facts['restored']:
             return V('status-after-failure', str(status), 'status %r after a KKT failure at %s (no restore)' % (status, first),
@@ -350,7 +358,7 @@ def judge(inst, plan, out, base):
                 return V('optimal-on-account-of-fault', 'restored', "after restore: 'optimal' with objective %r; fault-free: %r %r" %
                          (res.get('primal objective'), base['status'], base['pcost'])), facts
     if status == 'unknown':
-        if kind in ('cpl', 'cp'):
+        if kind in ('cpl', 'cp', 'gp'):
             probs, info = rescheck.check_cpl_result(inst, out.raw_cpl, make_refuse(plan.get('domain')))
         else:
             probs, info = rescheck.check_cone_result(inst, res)
@@ -414,7 +422,7 @@ def plans_for(rng, inst, base, tier):
     for j, name in base['lapack_calls']:
         plans.append({'lapack': [[j, 'before']]})
         plans.append({'lapack': [[j, 'after']]})
-    if inst['kind'] in ('cpl', 'cp'):
+    if inst['kind'] in ('cpl', 'cp', 'gp'):
         for k in range(2, NF):
             plans.append({'kkt': [['factor', k], ['factor', k + 1]]})
         allpairs = [(a, b) for a in range(2, NF + 1) for b in range(a + 2, NF + 1)]
@@ -434,7 +442,7 @@ def plans_for(rng, inst, base, tier):
             if NF >= 4:
                 a = rng.randint(2, NF - 2)
                 plans.append({'kkt': [['factor', a], ['factor', a + 1], ['factor', rng.randint(a + 2, NF)]]})
-        if base['status'] == 'optimal':
+        if base['status'] == 'optimal' and inst['kind'] != 'gp':
             regs = gen_regions(rng, inst, base, 12 if tier == 'quick' else 40)
             for i, reg in enumerate(regs):
                 plans.append({'domain': reg})
@@ -497,7 +505,7 @@ def run_unit(seed, tier, r, journal):
             res['nontrivial_digests'].append(core.sha((idig, plan)))
             for f in out.seam.fired:
                 bump('fault.kkt.%s.%s' % (f[0], phase_of(f)))
-                if inst['kind'] in ('cpl', 'cp') and f[0] == 'factor' and f[3] and f[4] is not None and 0 < f[4] < 8:
+                if inst['kind'] in ('cpl', 'cp', 'gp') and f[0] == 'factor' and f[3] and f[4] is not None and 0 < f[4] < 8:
                     bump('probe.cpl.failure_after_relaxed_step')
             for f in out.lseam.fired:
                 bump('fault.%s.%s' % (f[1], f[2]))
